@@ -57,6 +57,39 @@ def closures_created_in(prog, body, blocks=None):
     return out
 
 
+def closures_used_in(flows, body, blocks=None):
+    """closures created in the region, plus closures created elsewhere in the body (bound to a variable) whose
+    value is called or handed to a call inside the region"""
+    prog = flows.prog
+    out = list(closures_created_in(prog, body, blocks))
+    fl = flows.of(body)
+    by_local = {}
+    for l, cpath in fl.closure_locals.items():
+        if cpath in prog.bodies:
+            for c in fl.copies_of(l):
+                by_local[c] = cpath
+    for blk in body.normal_blocks():
+        if blocks is not None and blk.i not in blocks:
+            continue
+        t = blk.term
+        if t.k != "call":
+            continue
+        for a in t.args:
+            if a.place is not None and not a.place.proj and a.place.local in by_local:
+                cb = prog.bodies[by_local[a.place.local]]
+                if cb not in out:
+                    out.append(cb)
+            elif a.place is not None and not a.place.proj:
+                # `&closure` passed to Fn::call
+                d = fl.single_def(a.place.local)
+                rv = getattr(d, "rv", None) if d is not None else None
+                if rv is not None and rv.k == "ref" and not rv.place.proj and rv.place.local in by_local:
+                    cb = prog.bodies[by_local[rv.place.local]]
+                    if cb not in out:
+                        out.append(cb)
+    return out
+
+
 def value_descriptor(flows, root_path, body_path, operand, data_only=True):
     """provenance of an operand, robust to renaming: (root-function parameters reached,
     crate-local callees reached) through a data-only backward slice that climbs out of closures
@@ -74,7 +107,7 @@ def value_descriptor(flows, root_path, body_path, operand, data_only=True):
             params.add(nm)
         if n[0] == "CALL":
             t = prog.bodies[bp].blocks[n[1]].term
-            if t.callee and t.callee.target_path(prog):
+            if t.callee and t.callee.target_path(prog) and prog.items[t.callee.target_path(prog)]["kind"] != "closure":
                 callees.add(short(t.callee.target_path(prog)))
     return (frozenset(params), frozenset(callees))
 
@@ -101,8 +134,13 @@ def control_descriptor(flows, root_path, body_path, bb, within=None):
         at = fl.atom(a)
         if not at:
             continue
+        import panic as _p
+
+        # a condition bound to a variable first (`let needs_full = !can_use_basic(target, ..)`) tests what
+        # its definition tests
+        test = _p.expand_names(fl, _p.norm(at["test"]))
         for nm in opt_params:
-            if desc_mentions(at["test"], lambda d: d[0] in ("place", "discr") and (d[1] == nm or d[1].startswith(nm + ".") or d[1].startswith(nm + " "))):
+            if desc_mentions(test, lambda d: d[0] in ("place", "discr") and (d[1] == nm or d[1].startswith(nm + ".") or d[1].startswith(nm + " "))):
                 params.add(nm)
     # `opt.map(|x| f(x))` runs f exactly when `opt` is Some: the closure body is "under opt" just as the
     # Some arm of `match opt` is
@@ -152,11 +190,13 @@ def sibling_features(flows, root_path, body, blocks=None, _depth=0):
         tp = t.callee.target_path(prog)
         if not tp:
             continue
+        if prog.items[tp]["kind"] == "closure":
+            continue  # a direct call of a closure: its body is covered below, like a closure handed to an adaptor
         args = tuple(value_descriptor(flows, root_path, body.path, a) for a in t.args)
         ctrl = control_descriptor(flows, root_path, body.path, blk.i, within=blocks)
         feats.add((short(tp), args, ctrl))
     if _depth < 4:
-        for cb in closures_created_in(prog, body, blocks):
+        for cb in closures_used_in(flows, body, blocks):
             feats |= sibling_features(flows, root_path, cb, None, _depth + 1)
     return feats
 
@@ -294,20 +334,37 @@ def producers(flows, body, operand, depth=0, seen=None):
                         out |= producers(flows, prog.bodies[pp], st.rv.ops[ci], depth + 1, seen)
             return out or {"?"}
     l = pl.local
+    # the first field selected on the way (a value carried in a struct / tuple is followed into the aggregate
+    # that built the struct, also across a call: `helper(Ctx { preds, succs })` ... `ctx.preds`)
+    ffield = next((e for e in pl.proj if isinstance(e, dict) and "f" in e and not str(e["f"]).startswith("^")), None)
     if 1 <= l <= body.arg_count:
         callers = flows.callers().get(body.path, [])
         if body.kind == "closure" or not callers:
             return {"param:" + body.short}
+        from mir import Operand
+
         for (cp, cbb) in callers:
             cb = prog.bodies[cp]
             t = cb.blocks[cbb].term
             if l - 1 < len(t.args):
-                out |= producers(flows, cb, t.args[l - 1], depth + 1, seen)
+                a = t.args[l - 1]
+                if ffield is not None and a.place is not None:
+                    a = Operand({"k": "copy", "place": {"l": a.place.local, "p": list(a.place.proj) + [ffield], "ty": ffield.get("ty", "")}})
+                out |= producers(flows, cb, a, depth + 1, seen)
         return out
     defs = body.assigns_to(l)
     if not defs:
         return {"?"}
     for (dbb, d) in defs:
+        rv0 = getattr(d, "rv", None)
+        if ffield is not None and rv0 is not None and rv0.k == "aggr" and rv0.j.get("ak") in ("adt", "tuple") and not d.lhs.proj:
+            idx = ffield.get("i")
+            names = rv0.j.get("fields") or []
+            if str(ffield["f"]) in names:
+                idx = names.index(str(ffield["f"]))
+            if isinstance(idx, int) and idx < len(rv0.ops):
+                out |= producers(flows, body, rv0.ops[idx], depth + 1, seen)
+                continue
         if getattr(d, "k", None) == "call":
             nm = d.callee.short if d.callee else "<indirect>"
             if nm.split("::")[-1] in PASS_THROUGH and d.args:
@@ -316,13 +373,20 @@ def producers(flows, body, operand, depth=0, seen=None):
                 out.add(nm)
         else:
             rv = d.rv
+            # a field selected on the value being traced stays selected on what the value is a copy / borrow of
+            carry = [ffield] if (ffield is not None and not d.lhs.proj) else []
             if rv.k in ("use", "cast") and rv.ops and rv.ops[0].place is not None:
-                out |= producers(flows, body, rv.ops[0], depth + 1, seen)
+                nxt = rv.ops[0]
+                if carry:
+                    from mir import Operand
+
+                    nxt = Operand({"k": "copy", "place": {"l": nxt.place.local, "p": list(nxt.place.proj) + carry, "ty": carry[0].get("ty", "")}})
+                out |= producers(flows, body, nxt, depth + 1, seen)
             elif rv.k in ("ref", "copyderef") and rv.place is not None:
                 from flow import _LocalOperand
 
                 op = _LocalOperand(rv.place.local, body.local_ty(rv.place.local))
-                op.place.proj = [e for e in rv.place.proj if e != "*"]
+                op.place.proj = [e for e in rv.place.proj if e != "*"] + carry
                 out |= producers(flows, body, op, depth + 1, seen)
             else:
                 out.add("<%s>" % rv.k)
